@@ -14,7 +14,7 @@ CONSTANTS MaxRuns, Enabled, Shard, NShards
 Kinds == {"cls", "fn", "ap"}
 KindSeq == <<"cls", "fn", "ap">>
 \* A2 = A plus one trailing, undescribed parameter: "different" includes "one is a strict prefix of the other"
-\* D = a required (default-less) parameter of a non-builtin type followed by a defaulted one
+\* D = a required (default-less) parameter of a non-builtin type, a defaulted scalar and an Optional[str] with a concrete default
 Ifaces == {"A", "A2", "B", "C", "D"}
 Arounds == {"none", "both"}
 Present == [iface : Ifaces, around : Arounds, rev : {0}]
